@@ -417,6 +417,10 @@ func buildC12(tier string) *core.Plan {
 				{"t": map[string]any{"$output": false, "m": map[string]any{`$"k{$repeat}"`: core.Clone(ib)}}, "u": "$replace:t.m"},
 				{"o": map[string]any{"$output": true, "l": []any{core.Clone(ib)}}, "p": map[string]any{"$output": true, "l": []any{core.Clone(ib)}}},
 				{"d": map[string]any{"$decode": "json", "$value": `{"n": [1, 2]}`}, "l": []any{core.Clone(ib)}},
+				// copies that evaluate to lists (through $value) stay entries of the surrounding list
+				{"l": []any{"first", map[string]any{"$repeat": ic, "$value": []any{"a", "$repeat"}}, "last"}},
+				{"l": []any{map[string]any{"$repeat": ic, "$value": []any{}}}},
+				{"l": []any{map[string]any{"$repeat": ic, "$value": []any{map[string]any{"$repeat": 2, "$value": []any{"$repeat"}}}}}},
 			} {
 				c12Check(c, "hand-expansion-in-directive-context", d)
 			}
